@@ -596,12 +596,15 @@ Qed.
 Lemma valid_dataset_sound a X : valid_dataset a X = true ->
   length X = n_samples a /\
   (forall row, In row X -> length row = n_features a /\ forall v, In v row -> in_int32 v = true) /\
-  (sorted_structure a = true -> forall j, (j < n_features a)%nat -> col_prop a (declared a j) (column X j)).
+  exists specs, layout a = Ok specs /\
+    (forall j, (j < n_features a)%nat -> col_prop a (nth j specs (dflt a)) (column X j)) /\
+    (wf_structure a = true -> forall j, (j < n_features a)%nat -> nth j specs (dflt a) = declared a j).
 Proof.
   unfold valid_dataset. intros H. apply andb_true_iff in H as [H1 H2].
   apply shape_ok_sound in H1 as [S1 S2]. split; [exact S1|]. split; [exact S2|].
-  intros Hs j Hj. rewrite Hs in H2. rewrite forallb_forall in H2. apply col_ok_sound. apply H2.
-  apply in_seq. lia.
+  destruct (layout a) as [specs|] eqn:L; [|discriminate]. exists specs. split; [reflexivity|]. split.
+  - intros j Hj. rewrite forallb_forall in H2. apply col_ok_sound. apply H2. apply in_seq. lia.
+  - intros Hw j Hj. rewrite (layout_wf a Hw) in L. inversion L; subst specs. now rewrite nth_map_seq.
 Qed.
 
 Lemma listed_complete a vs col :
@@ -637,21 +640,224 @@ Proof.
     intros v Hv. unfold distinct. apply nodup_In. apply R; auto. now rewrite Lv.
 Qed.
 
-Lemma model_passes_validator a s X : sorted_structure a = true ->
-  generate a s = Ok X -> valid_dataset a X = true.
+Lemma model_passes_validator a s X : generate a s = Ok X -> valid_dataset a X = true.
 Proof.
-  intros Hs H. unfold generate in H.
+  intros H. unfold generate in H.
   destruct (generate_full a s) as [[X' doms]|] eqn:G; [|discriminate]. inversion H; subst X'. clear H.
-  unfold generate_full in G. unfold valid_dataset. rewrite Hs. apply andb_true_iff. split.
+  unfold generate_full in G. unfold valid_dataset. apply andb_true_iff. split.
   - destruct (run_shape Nat.leb leb_le' a s X doms G) as [S1 S2].
     unfold shape_ok. apply andb_true_iff. split. now apply Nat.eqb_eq.
     apply forallb_forall. intros row Hr. destruct (S2 _ Hr) as [L I]. apply andb_true_iff. split.
     now apply Nat.eqb_eq. now apply forallb_forall.
-  - apply forallb_forall. intros j Hj. apply in_seq in Hj.
-    destruct (run_feature Nat.leb leb_le' a s X doms G j ltac:(lia)) as (specs & L & FO & _).
-    rewrite (layout_sorted a Hs) in L. inversion L; subst specs.
-    rewrite nth_map_seq in FO by lia. eapply col_ok_of_feature; eauto.
+  - destruct (run_cols Nat.leb leb_le' a s X doms G) as (specs & dcs & L & _).
+    rewrite L. apply forallb_forall. intros j Hj. apply in_seq in Hj.
+    destruct (run_feature Nat.leb leb_le' a s X doms G j ltac:(lia)) as (specs' & L' & FO & _).
+    rewrite L in L'. inversion L'; subst specs'. eapply col_ok_of_feature; eauto.
 Qed.
+
+(* ---------------------------------------------------------------- the RNG call pattern *)
+
+Lemma gen_feature_pattern cmp a sp s vec col s' :
+  gen_feature_gen cmp a sp s = Ok (vec, col, s') ->
+  map kind_of s = feature_pattern a sp ++ map kind_of s'.
+Proof.
+  unfold gen_feature_gen, feature_pattern. intros H.
+  destruct (get_domain a sp s) as [[v1 s1]|] eqn:D; [|discriminate].
+  destruct (get_weights sp v1 s1) as [s2|] eqn:W; [|discriminate].
+  cbv zeta in H.
+  destruct s2 as [|[] s2]; try discriminate.
+  destruct s2 as [|[] s3]; try discriminate.
+  repeat match type of H with (if ?c then _ else _) = _ => destruct c; [|discriminate] end.
+  inversion H; subst vec col s'. clear H.
+  assert (ED : map kind_of s =
+               (match sp with ACard _ => if random_values a then [1] else [] | _ => [] end) ++ map kind_of s1).
+  { unfold get_domain in D. destruct sp as [c|vs|vs ps].
+    - destruct (random_values a).
+      + destruct s as [|[] s0]; try discriminate.
+        match type of D with (if ?c then _ else _) = _ => destruct c; [|discriminate] end.
+        inversion D; subst. reflexivity.
+      + inversion D; subst. reflexivity.
+    - inversion D; subst. reflexivity.
+    - inversion D; subst. reflexivity. }
+  assert (EW : map kind_of s1 = (match sp with AValsP _ _ => [] | _ => [2] end) ++ map kind_of (RChoice l :: RShuffle l0 :: s3)).
+  { unfold get_weights in W. destruct sp as [c|vs|vs ps].
+    - destruct s1 as [|[] s0]; try discriminate.
+      match type of W with (if ?c then _ else _) = _ => destruct c; [|discriminate] end.
+      inversion W; subst. reflexivity.
+    - destruct s1 as [|[] s0]; try discriminate.
+      match type of W with (if ?c then _ else _) = _ => destruct c; [|discriminate] end.
+      inversion W; subst. reflexivity.
+    - match type of W with (if ?c then _ else _) = _ => destruct c; [|discriminate] end.
+      inversion W; subst. reflexivity. }
+  rewrite ED, EW. cbn [map kind_of]. rewrite <- !app_assoc. reflexivity.
+Qed.
+
+Lemma gen_cols_pattern cmp a : forall specs s dcs rest,
+  gen_cols_gen cmp a specs s = Ok (dcs, rest) ->
+  map kind_of s = flat_map (feature_pattern a) specs ++ map kind_of rest.
+Proof.
+  induction specs as [|sp r IH]; cbn; intros s dcs rest H.
+  - inversion H; subst. reflexivity.
+  - destruct (gen_feature_gen cmp a sp s) as [[[dom col] s1]|] eqn:F; [|discriminate].
+    destruct (gen_cols_gen cmp a r s1) as [[cs s2]|] eqn:G; [|discriminate].
+    inversion H; subst. rewrite (gen_feature_pattern _ _ _ _ _ _ _ F), (IH _ _ _ G).
+    now rewrite app_assoc.
+Qed.
+
+(* a successful run made exactly the calls of [call_pattern], in that order *)
+Lemma run_pattern a s X doms : generate_full a s = Ok (X, doms) -> map kind_of s = call_pattern a.
+Proof.
+  intros G. destruct (generate_full_gen_inv _ _ _ _ _ G) as (specs & dcs & s1 & E & L & C & _).
+  subst s. unfold call_pattern. rewrite L. cbn. f_equal.
+  rewrite (gen_cols_pattern _ _ _ _ _ _ C). cbn. apply app_nil_r.
+Qed.
+
+(* ---------------------------------------------------------------- progress *)
+
+Lemma nodupb_complete l : NoDup l -> nodupb l = true.
+Proof.
+  induction 1 as [|x r Hn _ IH]; cbn. reflexivity.
+  rewrite IH, andb_true_r. destruct (memZ x r) eqn:E; [|reflexivity].
+  apply memZ_In in E. contradiction.
+Qed.
+
+Lemma remove1_complete x l : In x l -> exists l', remove1 x l = Some l' /\ Permutation l (x :: l').
+Proof.
+  induction l as [|y r IH]; cbn; intros H. contradiction.
+  destruct (Z.eqb_spec x y).
+  - subst. exists r. split; reflexivity.
+  - destruct H as [H|H]. congruence. destruct (IH H) as [r' [E P]]. rewrite E.
+    exists (y :: r'). split. reflexivity.
+    eapply perm_trans; [apply perm_skip, P | apply perm_swap].
+Qed.
+
+Lemma permb_complete l1 : forall l2, Permutation l1 l2 -> permb l1 l2 = true.
+Proof.
+  induction l1 as [|x r IH]; cbn; intros l2 P.
+  - apply Permutation_nil in P. now subst.
+  - assert (Hin : In x l2) by (eapply Permutation_in; [exact P | now left]).
+    destruct (remove1_complete x l2 Hin) as [l2' [E P2]]. rewrite E. apply IH.
+    apply (Permutation_cons_inv (a := x)). eapply perm_trans; eauto.
+Qed.
+
+(* numpy's contract for the calls of one feature.  [vec] is the feature's domain. *)
+Definition domain_stream (a : args) (sp : attrs) (vec : list Z) (pre : list answer) : Prop :=
+  match sp with
+  | ACard c =>
+      if random_values a
+      then pre = [RChoice vec] /\ length vec = c /\ NoDup vec /\ (forall v, In v vec -> low a <= v <= high a)
+      else pre = [] /\ vec = arange (low a) c
+  | AVals vs => pre = [] /\ vec = vs
+  | AValsP vs _ => pre = [] /\ vec = vs
+  end.
+
+(* frequencies given: np.random.choice accepts them; otherwise the centre is drawn with randint(len(vec)) *)
+Definition weight_stream (sp : attrs) (vec : list Z) (w : list answer) : Prop :=
+  match sp with
+  | AValsP _ ps => w = [] /\ length ps = length vec /\ (forall p, In p ps -> 0 <= p) /\ 0 < sumZ ps
+  | _ => exists r, w = [RRandint r] /\ 0 <= r < Z.of_nat (length vec)
+  end.
+
+Inductive feature_stream (a : args) (sp : attrs) (vec : list Z) : list answer -> Prop :=
+| FS : forall pre w smp sh,
+    domain_stream a sp vec pre ->
+    weight_stream sp vec w ->
+    length smp = (if ensure_rep a && (length vec <=? n_samples a)%nat
+                  then n_samples a - length vec else n_samples a)%nat ->
+    (forall v, In v smp -> In v vec) ->
+    Permutation (if ensure_rep a && (length vec <=? n_samples a)%nat then smp ++ vec else smp) sh ->
+    feature_stream a sp vec (pre ++ w ++ [RChoice smp; RShuffle sh]).
+
+Inductive cols_stream (a : args) : list attrs -> list (list Z) -> list answer -> Prop :=
+| CS_nil : cols_stream a [] [] []
+| CS_cons : forall sp r vec doms s1 s2,
+    feature_stream a sp vec s1 -> cols_stream a r doms s2 ->
+    cols_stream a (sp :: r) (vec :: doms) (s1 ++ s2).
+
+Lemma gen_feature_progress a sp vec s1 rest :
+  feature_stream a sp vec s1 -> (forall v, In v vec -> in_int32 v = true) ->
+  exists col, gen_feature a sp (s1 ++ rest) = Ok (vec, col, rest).
+Proof.
+  intros FSt I32. destruct FSt as [pre w smp sh D W L M P].
+  exists sh. unfold gen_feature, gen_feature_gen. rewrite <- !app_assoc.
+  assert (ED : get_domain a sp (pre ++ w ++ [RChoice smp; RShuffle sh] ++ rest)
+               = Ok (vec, w ++ [RChoice smp; RShuffle sh] ++ rest)).
+  { unfold get_domain, domain_stream in *. destruct sp as [c|vs|vs ps].
+    - destruct (random_values a).
+      + destruct D as (-> & Lv & Nd & Rg). cbn [app].
+        rewrite Lv, Nat.eqb_refl, (nodupb_complete _ Nd). cbn [andb].
+        assert (forallb (between (low a) (high a)) vec = true) as ->.
+        { apply forallb_forall. intros v Hv. apply between_spec. auto. }
+        reflexivity.
+      + destruct D as (-> & ->). reflexivity.
+    - destruct D as (-> & ->). reflexivity.
+    - destruct D as (-> & ->). reflexivity. }
+  rewrite ED.
+  assert (EW : get_weights sp vec (w ++ [RChoice smp; RShuffle sh] ++ rest)
+               = Ok ([RChoice smp; RShuffle sh] ++ rest)).
+  { unfold get_weights, weight_stream in *. destruct sp as [c|vs|vs ps].
+    - destruct W as (r & -> & Hr). cbn [app].
+      assert ((0 <=? r) && (r <? Z.of_nat (length vec)) = true) as ->.
+      { apply andb_true_iff. split. apply Z.leb_le; lia. apply Z.ltb_lt; lia. }
+      reflexivity.
+    - destruct W as (r & -> & Hr). cbn [app].
+      assert ((0 <=? r) && (r <? Z.of_nat (length vec)) = true) as ->.
+      { apply andb_true_iff. split. apply Z.leb_le; lia. apply Z.ltb_lt; lia. }
+      reflexivity.
+    - destruct W as (-> & Lp & Pp & Sp). cbn [app].
+      rewrite Lp, Nat.eqb_refl. cbn [andb].
+      assert (forallb (Z.leb 0) ps = true) as ->.
+      { apply forallb_forall. intros q Hq. apply Z.leb_le. auto. }
+      assert ((0 <? sumZ ps) = true) as -> by (apply Z.ltb_lt; lia).
+      reflexivity. }
+  rewrite EW. cbv zeta. cbn [app].
+  set (rep := ensure_rep a && (length vec <=? n_samples a)%nat) in *.
+  rewrite L, Nat.eqb_refl. cbn [andb].
+  assert (forallb (fun v => memZ v vec) smp = true) as ->.
+  { apply forallb_forall. intros v Hv. apply memZ_In. auto. }
+  rewrite (permb_complete _ _ P).
+  assert (forallb in_int32 sh = true) as ->.
+  { apply forallb_forall. intros v Hv. apply I32.
+    apply (Permutation_in _ (Permutation_sym P)) in Hv.
+    destruct rep; [apply in_app_or in Hv as [Hv|Hv]|]; auto. }
+  reflexivity.
+Qed.
+
+Lemma gen_cols_progress a : forall specs doms s1, cols_stream a specs doms s1 ->
+  (forall dom, In dom doms -> forall v, In v dom -> in_int32 v = true) ->
+  forall rest, exists dcs, gen_cols a specs (s1 ++ rest) = Ok (dcs, rest) /\ map fst dcs = doms.
+Proof.
+  induction 1 as [|sp r vec doms s1 s2 F C IH]; intros I32 rest.
+  - exists []. split; reflexivity.
+  - destruct (gen_feature_progress a sp vec s1 (s2 ++ rest) F) as [col Ef].
+    { intros v Hv. apply (I32 vec); cbn; auto. }
+    destruct (IH ltac:(intros d Hd; apply I32; cbn; auto) rest) as (dcs & Ec & Ed).
+    exists ((vec, col) :: dcs). split.
+    + unfold gen_cols in *. cbn [gen_cols_gen]. rewrite <- app_assoc.
+      unfold gen_feature in Ef. rewrite Ef, Ec. reflexivity.
+    + cbn. now rewrite Ed.
+Qed.
+
+(* valid arguments (layout defined) and a stream respecting numpy's contract, domains inside int32:
+   the model succeeds, with exactly those domains *)
+Lemma generate_progress a specs doms s1 :
+  layout a = Ok specs -> cols_stream a specs doms s1 ->
+  (forall dom, In dom doms -> forall v, In v dom -> in_int32 v = true) ->
+  exists X, generate_full a (RSeed (seed a) :: s1) = Ok (X, doms).
+Proof.
+  intros L C I32. destruct (gen_cols_progress a specs doms s1 C I32 []) as (dcs & E & Ed).
+  rewrite app_nil_r in E.
+  exists (transpose (n_samples a) (map snd dcs)).
+  unfold generate_full, generate_full_gen. rewrite Z.eqb_refl, L.
+  unfold gen_cols in E. rewrite E, Ed. reflexivity.
+Qed.
+
+Lemma generate_progress_wf a doms s1 :
+  wf_structure a = true ->
+  cols_stream a (map (declared a) (seq 0 (n_features a))) doms s1 ->
+  (forall dom, In dom doms -> forall v, In v dom -> in_int32 v = true) ->
+  exists X, generate_full a (RSeed (seed a) :: s1) = Ok (X, doms).
+Proof. intros H. apply generate_progress. now apply layout_wf. Qed.
 
 (* ---------------------------------------------------------------- determinism *)
 
@@ -804,7 +1010,7 @@ Definition ex_X : list (list Z) :=
 
 Example ex_generate : generate ex_args ex_stream = Ok ex_X.
 Proof. vm_compute. reflexivity. Qed.
-Example ex_sorted : sorted_structure ex_args = true.
+Example ex_wf : wf_structure ex_args = true.
 Proof. reflexivity. Qed.
 Example ex_valid : valid_dataset ex_args ex_X = true.
 Proof. vm_compute. reflexivity. Qed.
@@ -815,6 +1021,13 @@ Proof. eexists. vm_compute. reflexivity. Qed.
 Example ex_bad_shuffle :
   generate (mkArgs 1 3 2 None false false 0 1000 7)
            [RSeed 7; RRandint 1; RChoice [0; 1; 1]; RShuffle [1; 1; 1]] = Err 8.
+Proof. reflexivity. Qed.
+(* outside the int32 precondition the model does not follow the code (which wraps silently) *)
+Example ex_out_of_int32 :
+  generate (mkArgs 1 2 5 (Some [SOne 0 (AVals [3000000000; 1])]) false false 0 1000 7)
+           [RSeed 7; RRandint 0; RChoice [3000000000; 1]; RShuffle [1; 3000000000]] = Err 9.
+Proof. reflexivity. Qed.
+Example ex_pattern : call_pattern ex_args = [0; 1;2;1;3; 1;2;1;3; 1;3; 1;3; 2;1;3].
 Proof. reflexivity. Qed.
 Example ex_naive :
   let row v := repeat 10 30 ++ [v] ++ [99] in
